@@ -58,6 +58,8 @@ func (run *Output) AddLetterSpacing(additionalSpacing fixed.Int26_6, isStartRun,
 	isVertical := run.Direction.IsVertical()
 
 	halfSpacing := additionalSpacing / 2
+	// the end side takes the remainder, so that an odd spacing is not rounded down between two clusters
+	endSpacing := additionalSpacing - halfSpacing
 	for startGIdx := 0; startGIdx < len(run.Glyphs); {
 		startGlyph := run.Glyphs[startGIdx]
 		endGIdx := startGIdx + startGlyph.GlyphCount - 1
@@ -78,11 +80,11 @@ func (run *Output) AddLetterSpacing(additionalSpacing fixed.Int26_6, isStartRun,
 		isLastCluster := startGIdx+startGlyph.GlyphCount >= len(run.Glyphs)
 		if !isLastCluster || !isEndRun {
 			if isVertical {
-				run.Glyphs[endGIdx].YAdvance += halfSpacing
+				run.Glyphs[endGIdx].YAdvance += endSpacing
 			} else {
-				run.Glyphs[endGIdx].XAdvance += halfSpacing
+				run.Glyphs[endGIdx].XAdvance += endSpacing
 			}
-			run.Glyphs[endGIdx].endLetterSpacing += halfSpacing
+			run.Glyphs[endGIdx].endLetterSpacing += endSpacing
 		}
 
 		// go to next cluster
